@@ -168,6 +168,16 @@ fn variants_for(env: &Env, base: &Plan, words: &[String], j: usize, len: usize, 
             vec![Op::Clock { dt: 1_000_000_000 }, Op::SetFile { file: FileId::Autocorrect, st: doc.clone(), mt: Mt::Now }, Op::Update { h, cfg: spawn_cfg(base) }],
         ));
     }
+    // right-shape documents with unusual values for a word that is typed afterwards
+    if with_corpus {
+        if let Some(core) = words.first().map(|w| w.chars().filter(|c| c.is_ascii_alphabetic()).collect::<String>()).filter(|c| !c.is_empty()) {
+            for v in ["\u{09B8}\u{09BE}\u{09B0}", "ab\u{0995}\u{09BF}", "\u{1F600}", "caf\u{00E9}", "", "`", ":"] {
+                let doc = FileSt::Text(serde_json::json!({ core.clone(): v }).to_string());
+                out.push(mk(vec![], vec![Op::SetFile { file: FileId::Autocorrect, st: doc.clone(), mt: Mt::Now }, Op::Restart { h }]));
+                out.push(mk(vec![], vec![Op::SetFile { file: FileId::Store, st: doc, mt: Mt::Now }, Op::Restart { h }]));
+            }
+        }
+    }
     // directory gone / read-only around the save
     out.push(mk(vec![Op::SetDir { st: crate::disk::DirState::Missing }], vec![Op::Restart { h }, Op::Heal]));
     out.push(mk(vec![Op::SetDir { st: crate::disk::DirState::ReadOnly }], vec![Op::Restart { h }, Op::Heal]));
@@ -198,95 +208,114 @@ pub fn run_enumeration(env: &Arc<Env>, known: &Arc<KnownFindings>, cfg: &BatchCf
         prefixes_total: 0,
         samples: Vec::new(),
     }));
-    let next = Arc::new(AtomicU64::new(cfg.first_index));
     let stop = Arc::new(AtomicBool::new(false));
     let capped = Arc::new(AtomicBool::new(false));
-    let mut handles = Vec::new();
-    for w in 0..cfg.workers.max(1) {
-        let env = env.clone();
-        let known = known.clone();
-        let shared = shared.clone();
-        let next = next.clone();
-        let stop = stop.clone();
-        let capped = capped.clone();
-        let verif_seed = cfg.verif_seed;
-        let last = cfg.first_index + cfg.runs;
-        let wall_cap = cfg.wall_cap;
-        handles.push(
-            std::thread::Builder::new()
-                .name(format!("enum-{}", w))
-                .stack_size(64 << 20)
-                .spawn(move || {
+    let workers = cfg.workers.max(1);
+    let verif_seed = cfg.verif_seed;
+    let all_bases: Vec<u64> = (cfg.first_index..cfg.first_index + cfg.runs).collect();
+    // Bases are processed in batches: first every base of the batch is expanded into its
+    // variants (parallel over bases), then the variants are executed (parallel over
+    // variants), so that the work is spread evenly whatever the size of a base.
+    for batch in all_bases.chunks(4 * workers) {
+        if stop.load(Ordering::SeqCst) {
+            break;
+        }
+        if t0.elapsed() > cfg.wall_cap {
+            capped.store(true, Ordering::SeqCst);
+            break;
+        }
+        let work: Mutex<Vec<(u64, Plan)>> = Mutex::new(Vec::new());
+        let next_base = AtomicU64::new(0);
+        std::thread::scope(|sc| {
+            for _ in 0..workers {
+                sc.spawn(|| loop {
+                    let k = next_base.fetch_add(1, Ordering::SeqCst) as usize;
+                    if k >= batch.len() {
+                        break;
+                    }
+                    let i = batch[k];
+                    let seed = run_seed(verif_seed, Scenario::UserfileFaults, 1_000_000 + i);
+                    let (base, words) = Gen::new(env, seed, Tier::Thorough).enum_base();
+                    let saves = match find_saves(env, &base) {
+                        Some(s) => s,
+                        None => continue,
+                    };
+                    let mut mine: Vec<(u64, Plan)> = Vec::new();
+                    let mut n_pref = 0u64;
+                    for (si, (j, _)) in saves.iter().enumerate() {
+                        let len = store_len_after(env, &base, *j);
+                        n_pref += len as u64 + 1;
+                        for p in variants_for(env, &base, &words, *j, len, seed ^ (si as u64 + 1), si + 1 == saves.len()) {
+                            mine.push((i, p));
+                        }
+                    }
+                    let mut s = shared.lock().unwrap();
+                    s.bases += 1;
+                    s.saves += saves.len() as u64;
+                    s.prefixes_total += n_pref;
+                    if s.samples.len() < 2 {
+                        s.samples.push((i, base.clone()));
+                    }
+                    drop(s);
+                    work.lock().unwrap().extend(mine);
+                });
+            }
+        });
+        let mut work = work.into_inner().unwrap();
+        work.sort_by_key(|(i, _)| *i);
+        let next_var = AtomicU64::new(0);
+        let work_ref = &work;
+        std::thread::scope(|sc| {
+            for w in 0..workers {
+                let stop = stop.clone();
+                let capped = capped.clone();
+                let shared = shared.clone();
+                let known = known.clone();
+                let next_var = &next_var;
+                sc.spawn(move || {
+                    crate::watch::set_worker(w);
                     let mut local = Stats::default();
+                    let mut n_var = 0u64;
                     loop {
                         if stop.load(Ordering::SeqCst) {
                             break;
                         }
-                        if t0.elapsed() > wall_cap {
+                        if t0.elapsed() > cfg.wall_cap + Duration::from_secs(120) {
                             capped.store(true, Ordering::SeqCst);
                             break;
                         }
-                        let i = next.fetch_add(1, Ordering::SeqCst);
-                        if i >= last {
+                        let k = next_var.fetch_add(1, Ordering::SeqCst) as usize;
+                        if k >= work_ref.len() {
                             break;
                         }
-                        let seed = run_seed(verif_seed, Scenario::UserfileFaults, 1_000_000 + i);
-                        let (base, words) = Gen::new(&env, seed, Tier::Thorough).enum_base();
-                        let saves = match find_saves(&env, &base) {
-                            Some(s) => s,
-                            None => continue,
-                        };
-                        let mut n_var = 0u64;
-                        let mut n_pref = 0u64;
-                        for (si, (j, _)) in saves.iter().enumerate() {
-                            let len = store_len_after(&env, &base, *j);
-                            n_pref += len as u64 + 1;
-                            let vars = variants_for(&env, &base, &words, *j, len, seed ^ (si as u64 + 1), si + 1 == saves.len());
-                            for p in vars {
-                                if stop.load(Ordering::SeqCst) {
-                                    break;
-                                }
-                                n_var += 1;
-                                let (o, _) = execute(&env, &p, &mut local, exec_opts(p.scenario, false));
-                                match o.end {
-                                    End::Ok | End::Inconclusive(_) => {}
-                                    End::Harness(e) => {
-                                        shared.lock().unwrap().harness = Some(e);
-                                        stop.store(true, Ordering::SeqCst);
+                        let (i, p) = &work_ref[k];
+                        n_var += 1;
+                        let (o, _) = execute(env, p, &mut local, exec_opts(p.scenario, false));
+                        match o.end {
+                            End::Ok | End::Inconclusive(_) => {}
+                            End::Harness(e) => {
+                                shared.lock().unwrap().harness = Some(e);
+                                stop.store(true, Ordering::SeqCst);
+                            }
+                            End::Violation(v) => {
+                                if let Some(kf) = known.matching("C10", &v) {
+                                    shared.lock().unwrap().known.push((kf.what.clone(), v.detail.clone()));
+                                } else {
+                                    let mut s = shared.lock().unwrap();
+                                    if s.failure.as_ref().map(|f| *i < f.index).unwrap_or(true) {
+                                        s.failure = Some(Failure { index: *i, plan: p.clone(), violation: v });
                                     }
-                                    End::Violation(v) => {
-                                        if let Some(k) = known.matching("C10", &v) {
-                                            shared.lock().unwrap().known.push((k.what.clone(), v.detail.clone()));
-                                        } else {
-                                            let mut s = shared.lock().unwrap();
-                                            if s.failure.as_ref().map(|f| i < f.index).unwrap_or(true) {
-                                                s.failure = Some(Failure { index: i, plan: p, violation: v });
-                                            }
-                                            stop.store(true, Ordering::SeqCst);
-                                        }
-                                    }
+                                    stop.store(true, Ordering::SeqCst);
                                 }
                             }
                         }
-                        let mut s = shared.lock().unwrap();
-                        s.variants += n_var;
-                        s.bases += 1;
-                        s.saves += saves.len() as u64;
-                        s.prefixes_total += n_pref;
-                        if s.samples.len() < 2 {
-                            s.samples.push((i, base.clone()));
-                        }
                     }
-                    shared.lock().unwrap().stats.merge(&local);
-                })
-                .expect("spawn"),
-        );
-    }
-    for h in handles {
-        if h.join().is_err() {
-            println!("HARNESS-ERROR: an enumeration worker panicked");
-            return 2;
-        }
+                    let mut s = shared.lock().unwrap();
+                    s.variants += n_var;
+                    s.stats.merge(&local);
+                });
+            }
+        });
     }
     let mut s = shared.lock().unwrap();
     if let Some(e) = &s.harness {
